@@ -9,6 +9,8 @@ import (
 	"database/sql/driver"
 	"errors"
 	"fmt"
+	"os"
+	"path/filepath"
 	"strings"
 
 	"github.com/high-moctane/mocrelay"
@@ -267,3 +269,71 @@ func vpNativeAtomicity(k int, nsets int, ntags []int, preexisting []bool) string
 }
 
 func init() { vpNativeTx = vpNativeAtomicity }
+
+// ---------------------------------------------------------------------------
+// C06 store differential: the scenario on the real store. In memory unless the
+// history closes and reopens the database, then on a file in a temporary directory.
+
+func init() { vpNativeStore = vpNativeStoreRun }
+
+func vpNativeStoreRun(sc *vpScenario) [][]*mocrelay.Event {
+	ctx := context.Background()
+	dsn := ":memory:"
+	for _, r := range sc.reopen {
+		if r {
+			dir, err := os.MkdirTemp("", "vpstore-")
+			if err != nil {
+				panic(err)
+			}
+			defer os.RemoveAll(dir)
+			dsn = "file:" + filepath.Join(dir, "db.sqlite") + "?_synchronous=OFF&_journal_mode=MEMORY"
+			break
+		}
+	}
+	open := func() (*sql.DB, uint32) {
+		db, err := sql.Open("sqlite3", dsn)
+		if err != nil {
+			panic(err)
+		}
+		db.SetMaxOpenConns(1)
+		if err := Migrate(ctx, db); err != nil {
+			panic(err)
+		}
+		seed, err := setOrLoadXXHashSeed(ctx, db)
+		if err != nil {
+			panic(err)
+		}
+		return db, seed
+	}
+	db, seed := open()
+	defer func() { db.Close() }()
+	var answers [][]*mocrelay.Event
+	var batch []*mocrelay.Event
+	for i, ev := range sc.events {
+		batch = append(batch, ev)
+		if !sc.flush[i] {
+			continue
+		}
+		if err := insertEvents(ctx, db, seed, batch); err != nil {
+			panic(err)
+		}
+		if sc.twice[i] {
+			if err := insertEvents(ctx, db, seed, batch); err != nil {
+				panic(err)
+			}
+		}
+		batch = nil
+		if sc.reopen[i] {
+			if err := db.Close(); err != nil {
+				panic(err)
+			}
+			db, seed = open()
+		}
+		got, err := queryEvent(ctx, db, seed, sc.filters, NoLimit)
+		if err != nil {
+			panic(err)
+		}
+		answers = append(answers, got)
+	}
+	return answers
+}
